@@ -393,8 +393,7 @@ def c04_all_type_spellings(kind: int, r: int, a: int, role: int) -> bool:
     from harness import c01_tree as A
     from harness.shapes import cpp as ref_cpp, itext
     kind, a = pick(kind, 0, 2), pick(a, 0, A.NA_LEAF)
-    if kind:
-        r = pick(r, 0, A.NA_ROOT)
+    r = pick(r, 0, A.NA_ROOT) if kind else 0            # (a leaf has no root: keep r concrete)
     role = pick(role, 0, 3) if THOROUGH else (a + r) % 3
     ok = True
     with concrete():
